@@ -26,7 +26,7 @@ Inductive case :=
 (* apply on an arbitrary payload list *)
 | CApply (cfg : nat) (ops : list op) (dev : list Z) (pls : list payload) (o_apply : outcome (list Z)).
 
-Definition default_st := mkSt false 0 0 [] [] [].
+Definition default_st := mkSt false 0 0 [] [] [] [].
 Definition cfg_name (cfg : nat) : string :=
   match nth_error configs cfg with Some (nm, _, _, _) => nm | None => EmptyString end.
 Definition cfg_st (cfg : nat) : st :=
